@@ -187,8 +187,7 @@ def gen_batch(rng, trx, sites_of):
             t = deepcopy(src)
             te = t['path-constraints']['te-bandwidth']
             ero = t.get('explicit-route-objects', {}).get('route-object-include-exclude')
-            how = G.pick(rng, ['hops', 'hops', 'mode', 'spacing', 'power', 'nb', 'route'])   # (not the direction flag alone:
-            # such twins are aggregated into one request, which is outside this property's batches)
+            how = G.pick(rng, ['hops', 'hops', 'mode', 'spacing', 'power', 'nb', 'route', 'bidir'])
             if how == 'hops' and not ero:
                 how = 'route'
             if how == 'route' and not sites_of:
@@ -212,6 +211,8 @@ def gen_batch(rng, trx, sites_of):
                 te['output-power'] = G.pick(rng, [0.0005, 0.002, 0.004])
             elif how == 'nb':
                 te['max-nb-of-channel'] = G.pick(rng, [n for n in (10, 20, 40, 60) if n != te['max-nb-of-channel']])
+            elif how == 'bidir':
+                t['bidirectional'] = not t['bidirectional']
             t['request-id'] = f'r{len(reqs)}'
             te['path_bandwidth'] = 100e9 + len(reqs) * 1e9
             t['_kind'] = f'twin-{how}:' + src['_kind']
